@@ -132,7 +132,9 @@ class SlottedHost:
                     with m.Case(3):
                         m.d.comb += [a.eq(1), v.eq(1), d.eq(f11[0:8])]
                     with m.Case(4):
-                        m.d.comb += [a.eq(1), v.eq(1), d.eq(Cat(f11[8:11], c5))]
+                        # SOF slots use `flag` to corrupt the token's CRC5
+                        m.d.comb += [a.eq(1), v.eq(1),
+                                     d.eq(Cat(f11[8:11], c5 ^ ((self.cur_kind == KIND_SOF) & self.cur_flag)))]
             with m.If(self.cur_kind == KIND_HSK):
                 with m.Switch(t):
                     with m.Case(1):
